@@ -214,3 +214,124 @@ func VerifC10_DropThenCloseVT() {
 		vsymAssert(starts == 2, "re-dial-happened-before-close")
 	}
 }
+
+// c10Op performs one API call: 0 Open(background), 1 Close, 2 fire-and-forget data send,
+// 3 reply-expected data send (the model peer never answers: ends with T3 or the link's end),
+// 4 UpdateConfigOptions (a valid and an invalid option).
+func c10Op(h *c10Conn, op int) error {
+	switch op {
+	case 0:
+		return h.c.Open(context.Background(), OpenBackground)
+	case 1:
+		return h.c.Close()
+	case 2:
+		_, err := h.c.SendDataMessage(context.Background(), 1, 1, false, nil)
+		return err
+	case 3:
+		r, err := h.c.SendDataMessage(context.Background(), 1, 1, true, nil)
+		vsymAssert((r == nil) == (err != nil), "reply-xor-error")
+		return err
+	default:
+		e1 := h.c.UpdateConfigOptions(WithT6(7*time.Second), WithCloseTimeout(3*time.Second))
+		vsymAssert(e1 == nil, "valid-reconfiguration-accepted")
+		e2 := h.c.UpdateConfigOptions(WithT6(-time.Second))
+		vsymAssert(e2 != nil, "invalid-reconfiguration-refused")
+		return nil
+	}
+}
+
+// c10Serial is the reference lifecycle (0 never opened, 1 open, 2 closed): the error CLASS an
+// Open or Close returns from state st (0 nil, 1 already-open, 2 not-open) and the next state.
+func c10Serial(st, op int) (class, next int) {
+	switch op {
+	case 0:
+		if st == 1 {
+			return 1, 1
+		}
+		return 0, 1
+	default:
+		switch st {
+		case 0:
+			return 2, 0
+		case 1:
+			return 0, 2
+		}
+		return 0, 2
+	}
+}
+
+func c10Class(err error) int {
+	switch {
+	case err == nil:
+		return 0
+	case errors.Is(err, ErrAlreadyOpen):
+		return 1
+	case errors.Is(err, ErrNotOpen):
+		return 2
+	}
+	return 3
+}
+
+// VerifC10_ConcurrentPairVT: two callers at once. From each lifecycle state (never opened / open /
+// closed after open) two goroutines each make one call from {Open, Close, fire-and-forget send, reply-expected send, UpdateConfigOptions}; ONE preemption is
+// placed before each call instruction executed by any goroutine other than the harness (the
+// callers and the library's own goroutines), so the second caller and the library goroutines run
+// while the first caller is anywhere inside its call. Neither call panics or deadlocks; the
+// Open/Close results are those of one of the two serial orders; a send returns nil or an error;
+// afterwards a Close leaves nothing running.
+func VerifC10_ConcurrentPairVT() {
+	vsymExpect("done")
+	K := 400
+	if vsymTier() == 1 {
+		K = 1600
+	}
+	peer := vsymChoose(2)
+	h := newC10(peer)
+	st := vsymChoose(3)
+	if st >= 1 {
+		vsymAssert(h.c.Open(context.Background(), OpenBackground) == nil, "open-ok")
+	}
+	if st == 2 {
+		vsymAssert(h.c.Close() == nil, "close-ok")
+		vsymQuiesce()
+	}
+	nops := 3 // quick: Open, Close, fire-and-forget send; thorough: all five
+	if vsymTier() == 1 {
+		nops = 5
+	}
+	opA, opB := vsymChoose(nops), vsymChoose(nops)
+	k := vsymChoose(K)
+	var errA, errB error
+	done := make(chan int, 2)
+	vsymPreemptAt(k)
+	go func() { errA = c10Op(h, opA); done <- 0 }()
+	go func() { errB = c10Op(h, opB); done <- 1 }()
+	<-done
+	<-done
+	vsymPreemptAt(-1)
+	vsymPreemptCovered(K)
+	ca, cb := c10Class(errA), c10Class(errB)
+	if opA < 2 && opB < 2 {
+		// serial order A then B, or B then A
+		a1, s1 := c10Serial(st, opA)
+		b1, _ := c10Serial(s1, opB)
+		b2, s2 := c10Serial(st, opB)
+		a2, _ := c10Serial(s2, opA)
+		vsymAssert((ca == a1 && cb == b1) || (ca == a2 && cb == b2), "concurrent-open-close-results-match-a-serial-order")
+	} else {
+		if opA < 2 {
+			vsymAssert(ca != 3, "lifecycle-call-returns-nil-or-a-lifecycle-error")
+		}
+		if opB < 2 {
+			vsymAssert(cb != 3, "lifecycle-call-returns-nil-or-a-lifecycle-error")
+		}
+	}
+	_ = h.c.Close()
+	vsymQuiesce()
+	vsymAssert(h.c.State() == NotConnectedState, "state-not-connected-after-final-close")
+	vsymAssert(vsymLiveGoroutines() == 0, "no-library-goroutine-after-final-close")
+	s0 := h.tr.starts
+	vsymAdvance(int64(30 * time.Second))
+	vsymAssert(h.tr.starts == s0, "no-reconnect-attempt-after-final-close")
+	vsymReach("done")
+}
